@@ -97,6 +97,20 @@ func inCycle(in ssa.Instruction) bool {
 }
 
 func blockReentered(fn *ssa.Function, in ssa.Instruction) bool {
+	if in.Parent() != fn && len(gNewFuncs) > 0 {
+		// inside a helper the reference tree does not have: in a loop of the helper, or the helper's call
+		// sits in a loop of the function that calls it (and so on outwards to fn)
+		chain := projectChain(in)
+		for i, lv := range chain {
+			if lv.Parent() == fn || i == len(chain)-1 {
+				in = lv
+				break
+			}
+			if blockReentered(lv.Parent(), lv) {
+				return true
+			}
+		}
+	}
 	b := in.Block()
 	seen := map[*ssa.BasicBlock]bool{}
 	work := append([]*ssa.BasicBlock{}, b.Succs...)
@@ -246,7 +260,7 @@ func checkC12(c *Ctx) Meta {
 			continue
 		}
 		has := false
-		allInstrs(fn, func(in ssa.Instruction) {
+		allInstrsShallow(fn, func(in ssa.Instruction) {
 			if isBucketWrite(in) {
 				has = true
 			}
